@@ -1044,8 +1044,35 @@ pub fn run_c10_check(tier: &str, seed: u64, workers: u64, buffers_override: Opti
         let minp = format!("{}/C10-{}-{}-{}.json", replays_dir, rp.seed, rp.kind, rp.index);
         let (code, _out) = if v.oracle == "no-abort" { (9, String::new()) } else { run_child(&["minimize-c10", &raw, &minp]) };
         let path = if code == 0 && std::path::Path::new(&minp).exists() { minp.clone() } else { raw.clone() };
-        let (rc, rout) = run_child(&["replay-c10", &path]);
-        let reproduced = (rc == 1 && rout.contains("REPRODUCED")) || (v.oracle == "no-abort" && rc != 0 && rc != 2);
+        let (mut rc, mut rout) = run_child(&["replay-c10", &path]);
+        let mut reproduced = (rc == 1 && rout.contains("REPRODUCED")) || (v.oracle == "no-abort" && rc != 0 && rc != 2);
+        if !reproduced && v.oracle != "no-abort" {
+            // the outcome may depend on the iteration order of a map the code under test builds while
+            // loading; that order is a function of the simulated hash key, which in the worker had been
+            // advanced by the cases before this one. Search the key space for one that shows the same
+            // class of violation from a fresh thread, and store that key in the replay file.
+            for k in 1..=64u64 {
+                let mut rp2 = rp.clone();
+                rp2.target.knobs.hash_key = crate::rng::mix3(rp.seed, 0x4a5b, k);
+                rp2.note = format!("hash key {} of 64 tried: the violation depends on a map's iteration order", k);
+                std::fs::write(&raw, serde_json::to_string(&rp2).unwrap()).unwrap();
+                let (rc2, rout2) = run_child(&["replay-c10", &raw]);
+                if rc2 == 1 && rout2.contains(&format!("REPRODUCED property=C10 oracle={}", v.oracle)) {
+                    rc = rc2;
+                    rout = rout2;
+                    reproduced = true;
+                    break;
+                }
+            }
+        }
+        let path = if reproduced && !std::path::Path::new(&path).exists() { raw.clone() } else if reproduced && rc == 1 && path == minp && !{
+            let (c, o) = run_child(&["replay-c10", &minp]);
+            c == 1 && o.contains("REPRODUCED")
+        } {
+            raw.clone()
+        } else {
+            path
+        };
         if reproduced {
             if path == minp {
                 let _ = std::fs::remove_file(&raw);
